@@ -229,3 +229,8 @@ def perturb(c, rnd):
         c2["rebase"] = not c["rebase"]
     c2["grid"] = False
     return c2
+
+
+# living-object histories built from the step-wise cases above (harness/living.py)
+import living  # noqa: E402
+living.install(globals())
